@@ -24,7 +24,7 @@ def functions(tier):
     return u
 
 
-DEFAULT_STYLES = ('str', 'none', 'tuple', 'comma', 'eqcolon', 'pair', 'arrow')
+DEFAULT_STYLES = ('str', 'none', 'tuple', 'comma', 'eqcolon', 'pair', 'arrow', 'bothquotes')
 ANNOTATION_STYLES = ('plain', 'sep', 'braces')
 
 
@@ -32,7 +32,8 @@ def default_text(style, name):
     """Kinds of default value: a distinguishable string, None, an empty tuple (repr ends in a parenthesis), and values
     whose text contains what the string form of a signature uses as punctuation: ', '  '='  ':'  ' -> '."""
     return {'str': repr('d_' + name), 'none': 'None', 'tuple': '()', 'comma': repr('d_%s, x' % name),
-            'eqcolon': repr('k=%s: w' % name), 'pair': '(1, %r)' % name, 'arrow': repr('%s -> b' % name)}[style]
+            'eqcolon': repr('k=%s: w' % name), 'pair': '(1, %r)' % name, 'arrow': repr('%s -> b' % name),
+            'bothquotes': repr('it\'s "%s", x=1' % name)}[style]
 
 
 def annotation_text(style, name):
